@@ -33,8 +33,11 @@ struct Key
 {
 	bool isInt = false;
 	bool cstr = false;       // string key handed to the library as `const char*` (a literal in user code)
+	bool carr = false;       // string key handed over as an lvalue `char[64]` buffer that is larger than the text (snprintf'ed names)
 	uint8_t ikind = 0;       // integer key type in user code: 0 int64_t, 1 uint64_t (value in `u`), 2 int32_t, 3 int8_t
 	std::string s;
+	mutable char buffer[64] = {};
+	void Seal() const { if (carr && s.size() < sizeof buffer) { memset(buffer, 0, sizeof buffer); memcpy(buffer, s.data(), s.size()); } }
 	int64_t i = 0;
 	uint64_t u = 0;
 	// integer keys are equal when their mathematical values are (the document does not record the C++ type)
@@ -117,6 +120,14 @@ struct DynNode
 	template <class A, class TKey> void Member(A& ar, const TKey& key, DynNode& c);
 	template <class A, class F> static void WithKey(const Key& k, F&& f)
 	{
+		if (!k.isInt && k.carr && k.s.size() < 64 && k.s.find('\0') == std::string::npos)
+		{
+			// the buffer lives in the key (the JSON archive keeps raw-pointer keys by reference until the document is written); it is
+			// filled by Seal() when the key is made, so that a shared const document is only read here
+			if (strncmp(k.buffer, k.s.c_str(), sizeof k.buffer) != 0) k.Seal();
+			f(k.buffer);
+			return;
+		}
 		if (!k.isInt)
 		{
 			// (the MessagePack archive accepts string keys as std::string / std::string_view only: `const char*` does not compile there)
